@@ -10,6 +10,7 @@ import (
 	"go/types"
 	"os"
 	"path/filepath"
+	"sort"
 	"strings"
 	"sync"
 
@@ -148,6 +149,15 @@ func doCall(kind, gen string, stateful bool, st *genState, c gengo.Context, obj 
 			}
 		} else {
 			c.RenderT("\nfunc (@Type) Gen_@Gen() {}\n", snippet.IDArg("Type", obj), snippet.Arg("Gen", snippet.Block(ident(gen))))
+			// the output depends on everything gengo reports about the declaration: its complete effective tag set and its documentation
+			tags, doc := c.Doc(obj)
+			keys := make([]string, 0, len(tags))
+			for k, vs := range tags {
+				keys = append(keys, k+"="+strings.Join(vs, ","))
+			}
+			sort.Strings(keys)
+			c.Render(snippet.Comment(fmt.Sprintf("tags of %s: %s\ndoc of %s: %s", obj.Name(), strings.Join(keys, " "), obj.Name(), strings.Join(doc, " | "))))
+			c.Render(snippet.Block("\n"))
 		}
 		if stateful {
 			c.Render(snippet.Block(fmt.Sprintf("\n// instance had seen %d type(s) (%d distinct) before %s\n", st.seen, len(st.seenSet), obj.Name())))
@@ -193,6 +203,15 @@ func doCall(kind, gen string, stateful bool, st *genState, c gengo.Context, obj 
 					c.Render(snippet.Block(fmt.Sprintf("\nfunc nested_outer_%s_%s() {}\n", ident(gen), obj.Name())))
 					return nil
 				})
+			case "defer_nested2":
+				// two follow-ups registered by one callback while other callbacks are still waiting
+				for _, suffix := range []string{"/nested", "/nested2"} {
+					c.Defer(func(c gengo.Context) error {
+						logCall(Call{Kind: "defer", Pkg: pkgPath, Gen: gen, Type: obj.Name() + suffix, Beh: "nested2", SumNow: digestFile(sumFile()), OwnNow: digestFile(ownFile(c, gen))})
+						c.Render(snippet.Block(fmt.Sprintf("\nfunc nested2_%s_%s_%s() {}\n", ident(gen), obj.Name(), ident(suffix[1:]))))
+						return nil
+					})
+				}
 			case "defer_nested":
 				c.Defer(func(c gengo.Context) error {
 					logCall(Call{Kind: "defer", Pkg: pkgPath, Gen: gen, Type: obj.Name() + "/nested", Beh: "nested", SumNow: digestFile(sumFile()), OwnNow: digestFile(ownFile(c, gen))})
@@ -248,6 +267,15 @@ func doCall(kind, gen string, stateful bool, st *genState, c gengo.Context, obj 
 	case "render_defer_nested_outer":
 		render()
 		deferHelper("defer_nested_outer")
+	case "render_defer_nested2":
+		render()
+		deferHelper("defer_nested2")
+	case "blank": // white space only
+		c.Render(snippet.Block("\n  \n\t\n"))
+	case "nothing_defer": // renders nothing itself; its deferred callback does
+		deferHelper("defer_ok")
+	case "nothing_defer_err": // renders nothing, and its deferred callback fails
+		deferHelper("defer_err")
 	default:
 		return fmt.Errorf("unknown planned behaviour %q", beh)
 	}
